@@ -609,4 +609,149 @@ theorem mux_none (priority : Bool) (n : Nat) (data : List Nat) (hlen : data.leng
 theorem mux_single (priority : Bool) (sel : List Bool) (x : Nat) : oneHotMux priority sel [x] none = x := by
   rw [oneHotMux_eq]; rfl
 
+/-! ### one_hot_mux on signed / mixed-width operands -/
+
+/-- `z` is representable in shape `s` -/
+def fits (s : Shp) (z : Int) : Prop :=
+  if s.signed then 0 < s.width ∧ -((2 : Int) ^ (s.width - 1)) ≤ z ∧ z < (2 : Int) ^ (s.width - 1)
+  else 0 ≤ z ∧ z < (2 : Int) ^ s.width
+
+theorem pow2_mono {a b : Nat} (h : a ≤ b) : (2 : Int) ^ a ≤ (2 : Int) ^ b := by
+  have := Nat.pow_le_pow_right (n := 2) (by omega) h
+  exact_mod_cast this
+
+theorem pow2_pos (a : Nat) : (0 : Int) < (2 : Int) ^ a := by
+  have := Nat.two_pow_pos a
+  exact_mod_cast this
+
+theorem pow2_succ_pred {w : Nat} (h : 0 < w) : (2 : Int) ^ w = 2 * (2 : Int) ^ (w - 1) := by
+  have : w = (w - 1) + 1 := by omega
+  conv => lhs; rw [this, Int.pow_succ]
+  omega
+
+theorem le_maxL {x : Nat} {l : List Nat} (h : x ∈ l) : x ≤ maxL l := by
+  induction l with
+  | nil => simp at h
+  | cons y ys ih =>
+    simp only [maxL, List.foldr_cons] at ih ⊢
+    rcases List.mem_cons.1 h with h | h
+    · subst h; omega
+    · have := ih h; omega
+
+/-- reading back the two's-complement image gives the value itself -/
+theorem ofBits_toBits (s : Shp) (z : Int) (h : fits s z) : ofBits s (toBits s.width z) = z := by
+  unfold fits at h
+  unfold ofBits toBits
+  have hp := pow2_pos s.width
+  by_cases hs : s.signed = true
+  · simp only [hs, if_true] at h
+    obtain ⟨hw, h1, h2⟩ := h
+    have e := pow2_succ_pred hw
+    have hh := pow2_pos (s.width - 1)
+    by_cases hz : 0 ≤ z
+    · have hm : z % (2 : Int) ^ s.width = z := Int.emod_eq_of_lt hz (by omega)
+      rw [hm]
+      have hn : ((z.toNat : Nat) : Int) = z := Int.toNat_of_nonneg hz
+      have hlt : ¬ (2 ^ (s.width - 1) ≤ z.toNat) := by
+        intro hc
+        have : ((2 ^ (s.width - 1) : Nat) : Int) ≤ (z.toNat : Int) := by exact_mod_cast hc
+        rw [hn] at this
+        have e2 : ((2 ^ (s.width - 1) : Nat) : Int) = (2 : Int) ^ (s.width - 1) := by norm_cast
+        omega
+      simp [hs, hlt, hn]
+    · have hm : z % (2 : Int) ^ s.width = z + (2 : Int) ^ s.width := by
+        rw [← Int.add_mul_emod_self_left z ((2 : Int) ^ s.width) 1, Int.mul_one]
+        exact Int.emod_eq_of_lt (by omega) (by omega)
+      rw [hm]
+      have hnn : 0 ≤ z + (2 : Int) ^ s.width := by omega
+      have hn : (((z + (2 : Int) ^ s.width).toNat : Nat) : Int) = z + (2 : Int) ^ s.width := Int.toNat_of_nonneg hnn
+      have hge : 2 ^ (s.width - 1) ≤ (z + (2 : Int) ^ s.width).toNat := by
+        have : ((2 ^ (s.width - 1) : Nat) : Int) ≤ ((z + (2 : Int) ^ s.width).toNat : Int) := by
+          rw [hn]
+          have e2 : ((2 ^ (s.width - 1) : Nat) : Int) = (2 : Int) ^ (s.width - 1) := by norm_cast
+          omega
+        exact_mod_cast this
+      simp only [hs, hge, decide_true, Bool.and_self, if_true, hn]
+      omega
+  · have hs' : s.signed = false := by simpa using hs
+    simp only [hs', Bool.false_eq_true, if_false] at h
+    have hm : z % (2 : Int) ^ s.width = z := Int.emod_eq_of_lt h.1 h.2
+    rw [hm]
+    simp [hs', Int.toNat_of_nonneg h.1]
+
+/-- a value representable in one operand's shape is representable in the unified shape -/
+theorem fits_unify {l : List Shp} {s : Shp} {z : Int} (hs : s ∈ l) (h : fits s z) : fits (unifyShp l) z := by
+  unfold unifyShp
+  by_cases ha : l.any (·.signed) = true
+  · simp only [ha, if_true]
+    have hm : (if s.signed then s.width else s.width + 1) ≤
+        maxL (l.map (fun s => if s.signed then s.width else s.width + 1)) :=
+      le_maxL (List.mem_map.2 ⟨s, hs, rfl⟩)
+    unfold fits at h ⊢
+    simp only [if_true]
+    by_cases hsg : s.signed = true
+    · simp only [hsg, if_true] at h hm
+      obtain ⟨hw, h1, h2⟩ := h
+      have := pow2_mono (a := s.width - 1)
+        (b := maxL (l.map (fun s => if s.signed then s.width else s.width + 1)) - 1) (by omega)
+      exact ⟨by omega, by omega, by omega⟩
+    · have hsg' : s.signed = false := by simpa using hsg
+      simp only [hsg', Bool.false_eq_true, if_false] at h hm
+      have := pow2_mono (a := s.width)
+        (b := maxL (l.map (fun s => if s.signed then s.width else s.width + 1)) - 1) (by omega)
+      have := pow2_pos (maxL (l.map (fun s => if s.signed then s.width else s.width + 1)) - 1)
+      exact ⟨by omega, by omega, by omega⟩
+  · have ha' : l.any (·.signed) = false := by simpa using ha
+    simp only [ha', Bool.false_eq_true, if_false]
+    have hsg : s.signed = false := by
+      have := List.any_eq_false.1 ha' s hs
+      simpa using this
+    have hm : s.width ≤ maxL (l.map (·.width)) := le_maxL (List.mem_map.2 ⟨s, hs, rfl⟩)
+    unfold fits at h ⊢
+    simp only [hsg, Bool.false_eq_true, if_false] at h ⊢
+    have := pow2_mono hm
+    exact ⟨h.1, by omega⟩
+
+/-- typed mux: whenever the untyped mux returns the image of operand `(s, z)`, the typed result is `z` -/
+theorem oneHotMuxZ_value (priority : Bool) (sel : List Bool) (data : List (Shp × Int)) (dflt : Option (Shp × Int))
+    (s : Shp) (z : Int) (hmem : s ∈ data.map (·.1) ++ dflt.toList.map (·.1)) (hfit : fits s z)
+    (hsel : ∀ W, oneHotMux priority sel (data.map (fun d => toBits W d.2)) (dflt.map (fun d => toBits W d.2))
+      = toBits W z) :
+    (oneHotMuxZ priority sel data dflt).2 = z := by
+  simp only [oneHotMuxZ, hsel]
+  exact ofBits_toBits _ z (fits_unify hmem hfit)
+
+
+theorem mem_shapes_of_data {data : List (Shp × Int)} {dflt : Option (Shp × Int)} {i : Nat} {s : Shp} {z : Int}
+    (hd : data[i]? = some (s, z)) : s ∈ data.map (·.1) ++ dflt.toList.map (·.1) := by
+  apply List.mem_append_left
+  exact List.mem_map.2 ⟨(s, z), List.mem_of_getElem? hd, rfl⟩
+
+/-- typed mux, a set select bit (lowest with priority / the only one): the selected operand's value -/
+theorem muxZ_select (priority : Bool) (sel : List Bool) (data : List (Shp × Int)) (dflt : Option (Shp × Int))
+    (i : Nat) (rest : List Bool) (s : Shp) (z : Int) (hlen : sel.length = data.length)
+    (hs : sel = List.replicate i false ++ true :: rest)
+    (hp : priority = true ∨ rest = List.replicate rest.length false)
+    (hd : data[i]? = some (s, z)) (hfit : fits s z) :
+    oneHotMuxZ priority sel data dflt = (unifyShp (data.map (·.1) ++ dflt.toList.map (·.1)), z) := by
+  have hv := oneHotMuxZ_value priority sel data dflt s z (mem_shapes_of_data hd) hfit (fun W => by
+    have hd' : (data.map (fun d => toBits W d.2))[i]? = some (toBits W z) := by
+      rw [List.getElem?_map, hd]; rfl
+    rcases hp with hp | hp
+    · subst hp
+      exact mux_priority sel _ _ i rest _ (by simpa using hlen) hs hd'
+    · rw [hp] at hs
+      exact mux_onehot sel _ _ i rest.length _ (by simpa using hlen) hs hd' priority)
+  exact Prod.ext rfl hv
+
+/-- typed mux, no select bit set: the default operand's value -/
+theorem muxZ_default (priority : Bool) (n : Nat) (data : List (Shp × Int)) (s : Shp) (z : Int)
+    (hlen : data.length = n) (hfit : fits s z) :
+    oneHotMuxZ priority (List.replicate n false) data (some (s, z)) =
+      (unifyShp (data.map (·.1) ++ [s]), z) := by
+  have hv := oneHotMuxZ_value priority (List.replicate n false) data (some (s, z)) s z
+    (by simp) hfit (fun W => by
+      exact mux_default priority n _ _ (by simpa using hlen))
+  exact Prod.ext rfl hv
+
 end TxV.Encoders
